@@ -2,7 +2,7 @@ package main
 
 func c19Check() *libCheck {
 	return &libCheck{
-		Prop: "C19", Kind: "c19", Level: "exploration",
+		Prop: "C19", Kind: "c19", Level: "exploration", Extra: c19CmdPhase,
 		QuickRuns: 200000, ThoroughRuns: 20000000, PerBatch: 12500,
 		Rule: "each run = one seeded world: 0..40 jobs, parallelism 1..16, strategy random/PCT(d<=3)/run-to-block, a fault plan (failing post-process, mkdir/open/short-write faults, full disk, ENOTDIR), the real Generator.Persist + asyncPostProcess under the baton-passing scheduler; a case is non-trivial if the scheduler had >=2 runnable tasks at >=2 decisions, and distinct by (schedule fingerprint, event-log hash, jobs, parallelism)",
 		Assumptions: []string{
